@@ -340,7 +340,7 @@ where
     fn adjacency_matrix(&self) -> FixedBitSet {
         let n = self.node_bound();
         let mut matrix = FixedBitSet::with_capacity(n * n);
-        /*R:D11 for edge in self.edge_references() */ let mut __it = self.edge_references(); let ghost all = __it.remaining(); let ghost mut done: int = 0; let ghost dir = Ty::spec_is_directed();
+        /*R:D11 for edge in */ let mut __it = /*-*/ self.edge_references() /*R:D11 */; let ghost all = __it.remaining(); let ghost mut done: int = 0; let ghost dir = Ty::spec_is_directed();
         let ghost live = live_ix(self.es(), self.es().len() as int);
         proof { axiom_live_refs::<E, Ix>(self.es()); lemma_live_ix(self.es(), self.es().len() as int); self.lemma_nbound(); }
         loop
